@@ -1242,13 +1242,49 @@ var ruleModePred = &Rule{
 // bool parameter overrides (tempSetIgnoreStructuralErrors).
 func (p *Prog) ignoreField() *types.Var {
 	scs := p.classifyState()
+	fromIsLax := func(f *types.Var) bool {
+		for _, ctor := range scs {
+			if ctor.Class != "constructor" || ctor.Field != f {
+				continue
+			}
+			for _, st := range p.execStores(ctor.Fn) {
+				if st.Field != f || st.Store == nil {
+					continue
+				}
+				if c, ok := stripConv(st.Store.Val).(*ssa.Call); ok && c.Call.StaticCallee() != nil && c.Call.StaticCallee().Name() == "IsLax" && fnPkgPath(c.Call.StaticCallee()) == pkgAST {
+					return true
+				}
+			}
+		}
+		return false
+	}
+	// a bool field with a save-and-override helper; when several fields have
+	// one (`setTempVerbose` beside the flag's own), the one the constructor
+	// fills from the path's IsLax()
+	var cands []*types.Var
 	for _, sc := range scs {
 		if sc.Class != "restorer-helper" {
 			continue
 		}
 		if b, ok := sc.Field.Type().(*types.Basic); ok && b.Kind() == types.Bool {
-			return sc.Field
+			dup := false
+			for _, c := range cands {
+				if c == sc.Field {
+					dup = true
+				}
+			}
+			if !dup {
+				cands = append(cands, sc.Field)
+			}
 		}
+	}
+	for _, f := range cands {
+		if len(cands) == 1 || fromIsLax(f) {
+			return f
+		}
+	}
+	if len(cands) > 0 {
+		return cands[0]
 	}
 	// no helper: the bool field that is saved and restored in place and that
 	// the constructor fills from the path's IsLax()
